@@ -3,7 +3,7 @@ import time
 from harness import Program, Inconclusive, RC, WEAK
 from rules_ts import Teardown, Borrows, handle_boxes
 from rules_gate import Gate, Counters, Kill, short
-from rules_trace import Verdict, Trace, ClosureCache, Adaptors
+from rules_trace import Verdict, Trace, ClosureCache, Adaptors, GroupPhases
 from rules_api import TableOps, AdoptSchema, Purge, Getters, ApiSpec, Forward, FWD_TRAITS, REF_TRAITS
 import rules_struct
 
@@ -46,7 +46,7 @@ def analyse(program):
         self_box = hb[1][1] if 1 in hb else None
         name = short(fn.path)
         rules = [Teardown(kind, self_box), Borrows(), Gate(kind, self_box), Counters(kind, self_box, fn),
-                 Kill(kind, self_box, fn.path), Verdict(closures, fn), Trace(closures, P), Adaptors(closures), TableOps()]
+                 Kill(kind, self_box, fn.path), Verdict(closures, fn), Trace(closures, P), Adaptors(closures), TableOps(), GroupPhases()]
         if fn is adopt:
             rules.append(AdoptSchema("adopt", hb))
         elif fn is unadopt:
